@@ -298,6 +298,25 @@ fn created_elements(events: &[Value]) -> Vec<Value> {
     out
 }
 
+const XWORDS: &[&str] = &[
+    "<a>", "</a>", "<b x=\"1\">", "</b>", "<c/>", "<a b='", "'>", "<a b=\"", "\">", "<a b=", " ", "\n", "\r", "\r\n", "\0", "\u{feff}", "&amp;", "&amp", "&lt;",
+    "&#65;", "&#x41;", "&#", "&#x", "&", ";", "<!--", "-->", "-", "<?pi", "?>", "<!DOCTYPE", " a", " PUBLIC", " SYSTEM", " \"p\"", " 's'", ">", "<", "/",
+    "=", "<![CDATA[", "]]>", "]", "x", "t", "é", "<p:q xmlns:p=\"u\">", "</p:q>", "</>", "\t", "&notin;", "&#13;", "&#10;", "&#0;",
+];
+
+pub fn xml_text(r: &mut Rng, maxw: usize) -> String {
+    let n = 1 + r.below(maxw);
+    let mut s = String::new();
+    if r.chance(1, 2) {
+        s.push_str("<r>");
+    }
+    for _ in 0..n {
+        let w: &str = *r.pick(XWORDS);
+        s.push_str(w);
+    }
+    s
+}
+
 pub fn main(args: &Args) {
     let mut out = Out::new();
     let mode = args.get("mode").unwrap_or("ns").to_string();
@@ -307,6 +326,37 @@ pub fn main(args: &Args) {
     let mut cr = Rng::new(args.num("seed", 1) ^ 0x99);
     let cases: Vec<Value> = if args.has("replay") {
         read_cases().into_iter().filter(|c| c.get("items").is_some() || c.get("text").is_some()).collect()
+    } else if mode == "sched" {
+        let shard = args.num("shard", 0);
+        let shards = args.num("shards", 1).max(1);
+        if args.get("gen") == Some("enum") {
+            // every string of <= k pieces over a small alphabet rich in CR / LF / NUL / BOM / references / doctype keywords
+            let pieces: &[&str] = &["\r", "\n", "\0", "\u{feff}", "<a>", "</a>", "<a b=\"", "\">", "&amp", "&#65", ";", "x", "<!DOCTYPE a", " PUBLIC", " \"p\"", ">", "\r\nPUBLIC \"p\">", "\rSYSTEM 's'>", "<a b='", "<!--", "-->", "<?p", "?>", "<![CDATA[", "]]>"];
+            let k = args.num("k", 3) as usize;
+            let mut v = Vec::new();
+            let mut n = 0u64;
+            for len in 1..=k {
+                for idx in 0..pieces.len().pow(len as u32) {
+                    n += 1;
+                    if n % shards != shard {
+                        continue;
+                    }
+                    let mut t = String::new();
+                    let mut x = idx;
+                    for _ in 0..len {
+                        t.push_str(pieces[x % pieces.len()]);
+                        x /= pieces.len();
+                    }
+                    v.push(json!({"text": cps(&format!("<r>{}", t))}));
+                    if len <= 2 {
+                        v.push(json!({"text": cps(&t)}));
+                    }
+                }
+            }
+            v
+        } else {
+            (0..args.num("n", 100)).map(|_| json!({"text": cps(&xml_text(&mut r, 12))})).collect()
+        }
     } else {
         (0..args.num("n", 100)).map(|_| { let k = 2 + r.below(14); json!({"items": gen_items(&mut r, k)}) }).collect()
     };
@@ -339,6 +389,76 @@ pub fn main(args: &Args) {
                     out.line(&json!({"ev":"tree","case":id,"dom":xo.tree,"quirks":"no","parents_ok":xo.parents_ok,
                                      "panic": match &xo.panic { Some(m) => json!([cps(m)]), None => json!([]) }, "neof": neof}));
                 }
+            },
+            "sched" => {
+                // C15: reference = one piece with exact_errors; variants = chunkings x {exact_errors, profile};
+                // plus the source-normalised input and the BOM-prefixed input
+                id += 1;
+                let group = id;
+                let tokview = |xo: &XOut| -> Value {
+                    // token stream minus errors, adjacent character tokens concatenated
+                    let mut v: Vec<Value> = Vec::new();
+                    for e in xo.events.iter().filter(|e| e["ev"] == "token") {
+                        let t = &e["tok"];
+                        if t["k"] == "err" {
+                            continue;
+                        }
+                        if t["k"] == "chars" {
+                            if let Some(last) = v.last_mut() {
+                                if last["k"] == "chars" {
+                                    let add = t["s"].as_array().unwrap().clone();
+                                    last["s"].as_array_mut().unwrap().extend(add);
+                                    continue;
+                                }
+                            }
+                        }
+                        v.push(t.clone());
+                    }
+                    Value::Array(v)
+                };
+                let line = |ev: &str, xo: &XOut, input: &str, chunks: &[String], exact: bool, bom: bool, profile: bool| -> Value {
+                    json!({"ev":ev,"case":group,"input":cps(input),"chunks":chunks.iter().map(|x| cps(x)).collect::<Vec<_>>(),
+                           "exact":exact,"bom":bom,"profile":profile,"tree":xo.tree,"toks":tokview(xo),
+                           "panic": match &xo.panic { Some(m) => json!([cps(m)]), None => json!([]) }})
+                };
+                let bom = !args.has("nobom");
+                let one = vec![text.clone()];
+                let xo = run_xml(&one, true, bom, false, false);
+                out.line(&line("ref", &xo, &text, &one, true, bom, false));
+                for ch in chunkings(&text, &how, &mut cr) {
+                    for (exact, profile) in [(false, false), (true, false), (false, true)] {
+                        let xo = run_xml(&ch, exact, bom, profile, false);
+                        out.line(&line("var", &xo, &text, &ch, exact, bom, profile));
+                    }
+                }
+                // R2: the same document with line breaks and NUL normalised in the source
+                let norm: String = {
+                    let mut o = String::new();
+                    let cs: Vec<char> = text.chars().collect();
+                    let mut i = 0;
+                    while i < cs.len() {
+                        match cs[i] {
+                            '\r' => {
+                                o.push('\n');
+                                if i + 1 < cs.len() && cs[i + 1] == '\n' {
+                                    i += 1;
+                                }
+                            },
+                            '\0' => o.push('\u{fffd}'),
+                            c => o.push(c),
+                        }
+                        i += 1;
+                    }
+                    o
+                };
+                let n1 = vec![norm.clone()];
+                let xo = run_xml(&n1, true, bom, false, false);
+                out.line(&line("norm", &xo, &norm, &n1, true, bom, false));
+                // R3: a U+FEFF in front of the stream is dropped (discard_bom), and only there
+                let b = format!("{}{}", '\u{feff}', text);
+                let b1 = vec![b.clone()];
+                let xo = run_xml(&b1, true, true, false, false);
+                out.line(&line("bomrun", &xo, &b, &b1, true, true, false));
             },
             _ => {},
         }
